@@ -83,7 +83,7 @@ Definition fill_toks (fl : fillopt) : list token :=
   | FNone => [TWs; kw (K KFill); TLParen; TIdent s_none; TRParen]
   | FPrev => [TWs; kw (K KFill); TLParen; TIdent s_previous; TRParen]
   | FLinear => [TWs; kw (K KFill); TLParen; TIdent s_linear; TRParen]
-  | FNumber v => TWs :: kw (K KFill) :: TLParen :: PT v ++ [TRParen]
+  | FNumber v => TWs :: kw (K KFill) :: TLParen :: print_toks false dr v ++ [TRParen]    (* fmt %v: never a ".0" *)
   end.
 
 Definition sort_toks (sf : str * bool) : list token :=
@@ -159,7 +159,7 @@ Definition fill_text (fl : fillopt) : str :=
   | FNone => t_fill ++ s_none ++ [41]
   | FPrev => t_fill ++ s_previous ++ [41]
   | FLinear => t_fill ++ s_linear ++ [41]
-  | FNumber v => t_fill ++ PTX v ++ [41]
+  | FNumber v => t_fill ++ print_text op_text keywords false dr v ++ [41]
   end.
 Definition sort_text (sf : str * bool) : str :=
   QI (fst sf) ++ (if snd sf then [32;65;83;67] else [32;68;69;83;67]).
